@@ -73,12 +73,14 @@ CHECKS = {
         parts=[
             dict(name="a", harness="pkg__secretstore", run="TestVerifC05a"),
             dict(name="b", harness="root", run="TestVerifC05"),
+            dict(name="c", harness="root", run="TestVerifC05c"),
         ],
         technique="(a) exhaustive enumeration of (sender device, recipient member, group) triples x every (claimed sender, opener, group) combination x every single-bit flip on the real announcement code; (b) explicit-state BFS over real group contexts: activation steps, handling of received group-metadata events and deliveries between replicas are the transitions, chain-key completeness checked in every quiescent state",
         rule="(a) accounts {A,B,C} x devices {1,2} x groups {account(A), contact(A,B), contact(A,C), G1, G2}; (b) scenarios 2x1, 2x(2,1) devices, contact group (thorough: 3x1, fine-grained steps, contact with 2 devices); states = canonical (per replica: activation flags, entry descriptors, pending events, known chain keys), successors by replaying the history on fresh real objects + one real step; every join order and every delivery direction/order is a transition",
         assumptions=["handlers (handleGroupMetadataEvent, the activation steps) are atomic steps; their internal interleavings are out of scope here (C08/C09 cover the pipeline and the secret store)",
                      "events emitted before a replica's activation are not handled by it, as with the real subscription",
                      "(b) is capped at 400 (quick) / 4000 states per scenario; a cap hit is reported as exhaustive:false with what was completed",
+                     "(c) drives the real ActivateGroupContext: a new member's device entry is delivered at every secret-store call the activation makes (and before / after it); that the activation's event loop has caught up is established by a later entry whose answer is observable",
                      "keys outside the deterministic alphabet are not covered"],
     ),
     "C15": dict(
